@@ -69,6 +69,14 @@ _MONTH_FULL = list(_MONTH_ABBREV_TO_FULL.values())
 _LOWERCASE_FULL = list(m.lower() for m in _MONTH_FULL)
 
 
+def _unknown_month_note(month: int) -> str:
+    """Metadata note for an out-of-range month number (ints too large for str() are not spelled out)."""
+    try:
+        return f"month-field unchanged - unknown month {month}"
+    except ValueError:
+        return "month-field unchanged - unknown month (number too large to display)"
+
+
 def _is_int_string(value) -> bool:
     """True if value is a string of digits which `int` can convert."""
     if not (isinstance(value, str) and value.isdigit()):
@@ -106,7 +114,7 @@ class MonthLongStringMiddleware(_MonthInterpolator):
             if v < 1 or v > 12:
                 return (
                     month_field.value,
-                    f"month-field unchanged - unknown month {v}",
+                    _unknown_month_note(v),
                 )  # Nothing we can do here
             return _MONTH_FULL[v - 1], "transformed int-month to str-month"
         elif isinstance(v, str):
@@ -149,7 +157,7 @@ class MonthAbbreviationMiddleware(_MonthInterpolator):
         if isinstance(v, int):
             if v < 1 or v > 12:
                 # Nothing we can do here
-                return month_field.value, f"month-field unchanged - unknown month {v}"
+                return month_field.value, _unknown_month_note(v)
             return _MONTH_ABBREV[v - 1], "transformed int-month to abbreviated month"
         elif isinstance(v, str):
             v_lower = v.lower()
